@@ -54,9 +54,12 @@ static void vegas_case(std::vector<std::vector<int>> const& gx, int G, int f, in
         if (f == f_x1) return p.point()[d - 1];
         return x < edge ? T(1) : T();
     };
+    // the indicator function books an observable before it decides (the event is histogrammed, then fails the cut and zero is returned)
+    auto fnd = [&](hep::vegas_point<T> const& p, hep::projector<T>& pr) { pr.add(0, p.point()[0], T(1)); return fn(p); };
     auto chk = hep::make_vegas_chkpt<T, script_engine>(pdf, T(1.5), lattice(M, false));
     using C = decltype(chk);
-    auto r = hep::vegas(hep::make_integrand<T>(fn, d), std::vector<std::size_t>{N}, chk, hep::callback<C>(hep::callback_mode::silent));
+    auto r = f == f_ind ? hep::vegas(hep::make_integrand<T>(fnd, d, hep::make_dist_params<T>(4, T(), T(1), "x")), std::vector<std::size_t>{N}, chk, hep::callback<C>(hep::callback_mode::silent))
+                        : hep::vegas(hep::make_integrand<T>(fn, d), std::vector<std::size_t>{N}, chk, hep::callback<C>(hep::callback_mode::silent));
     T sum = r.results()[0].sum();
     std::vector<long long> flat;
     for (auto const& g : gx) for (int v : g) flat.push_back(v);
@@ -158,8 +161,11 @@ static T mc_lattice(std::vector<int> const& ks, std::vector<T> const& weights, T
     using C = decltype(chk);
     chk.channels(n);
     if (used) *used = chk.channel_weights();
-    auto r = hep::multi_channel(hep::make_multi_channel_integrand<T>(fn, extra == 1 ? 2 : 1, map, extra == 2 ? 2 : 1, n),
-        std::vector<std::size_t>{Mu * Ms * (extra == 1 ? Mu : 1)}, chk, hep::callback<C>(hep::callback_mode::silent));
+    auto fnd = [&](hep::multi_channel_point<T> const& p, hep::projector<T>& pr) { pr.add(0, p.coordinates()[0], T(1)); return fn(p); };
+    auto r = f == f_ind ? hep::multi_channel(hep::make_multi_channel_integrand<T>(fnd, extra == 1 ? 2 : 1, map, extra == 2 ? 2 : 1, n, hep::make_dist_params<T>(4, T(), T(1), "y")),
+                              std::vector<std::size_t>{Mu * Ms * (extra == 1 ? Mu : 1)}, chk, hep::callback<C>(hep::callback_mode::silent))
+                        : hep::multi_channel(hep::make_multi_channel_integrand<T>(fn, extra == 1 ? 2 : 1, map, extra == 2 ? 2 : 1, n),
+                              std::vector<std::size_t>{Mu * Ms * (extra == 1 ? Mu : 1)}, chk, hep::callback<C>(hep::callback_mode::silent));
     return r.results()[0].value();
 }
 
